@@ -30,6 +30,7 @@ import (
 	"go/ast"
 	"go/parser"
 	"go/token"
+	"go/types"
 	"net"
 	"path/filepath"
 	"sort"
@@ -1147,12 +1148,9 @@ func writesOnFresh(fd *ast.FuncDecl) (sites int, fresh bool) {
 				}
 			}
 		case *ast.SliceExpr:
-			if e.Slice3 && e.High != nil && e.Max != nil && fmt.Sprint(e.High) == fmt.Sprint(e.Max) {
-				if hi, ok := e.High.(*ast.Ident); ok {
-					if mx, ok := e.Max.(*ast.Ident); ok && hi.Name == mx.Name {
-						good = true
-					}
-				}
+			// x[a:b:b]: no spare capacity, so a later append cannot write into x's array
+			if e.Slice3 && e.High != nil && e.Max != nil && types.ExprString(e.High) == types.ExprString(e.Max) {
+				good = true
 			}
 		}
 		if !seenAssign[name] {
